@@ -902,7 +902,7 @@ def plan(quick: bool) -> Tuple[List[Tuple[Any, ...]], List[Tuple[Any, ...]], Lis
                   (5, 1, (0, 1), False, False, 4)]
         pspaces = [(2, 2, (0, 1, 2)), (3, 1, (0, 1, 2)), (4, 1, (0, 1))]
         rspaces = [(1, 2, (0, 1, 2), True, True), (2, 2, (0, 1, 2), True, True), (3, 1, (0, 1, 2), True, True),
-                   (3, 2, (0, 1), False, True), (4, 1, (0, 1), False, False)]
+                   (3, 2, (0, 1), False, True)]
     desc = []
     for n, k, kinds, skew, full, nsh in spaces:
         hs = ri.hierarchies(n)
